@@ -146,6 +146,72 @@ def radii_conversion(ctx, repo, pid="C16"):
             ctx.check(float_on_all_paths(tg), "FLOW", f"{tag}.dtype", f"{name} branch: the values are converted to float on every path before they "
                       "are hashed (the identifier depends on the array only, not on how a number was spelled)", where,
                       "np.array(..., dtype=float)", witness=f"a path reaches the hash without a float conversion: {vstr(tg)[:200]}")
+        # the numbers inside the brackets reach the constructor unchanged and in the order they were written: np.linspace(start, stop, num) /
+        # np.arange(start, stop, step) are DEFINED on the written triple (a descending request is made ascending by the sort afterwards,
+        # not by re-interpreting the limits - with a half-open range that would drop the wrong end point)
+        if ok and name in ("linspace", "range"):
+            ctor_op = {"linspace": "linspace", "range": "arange"}[name]
+            def find_ctor(t):
+                if isinstance(t, Term):
+                    if t.op == ctor_op:
+                        return t
+                    for a_ in t.args:
+                        r_ = find_ctor(a_)
+                        if r_ is not None:
+                            return r_
+                return None
+            ct = find_ctor(tg)
+            reader = ci.find_method("_read_within_brackets")
+            ctx.instance("FLOW")
+            if ct is not None and reader is not None:
+                ref = Interp(repo, BranchHooks(ls, rg)).call_function(reader, [], {}, self_obj=obj)
+                pos = [a_ for a_ in ct.args]
+                refk = vkey(ref)
+
+                def proj(x):
+                    """k when x is element k of the bracket contents (possibly sign-flipped: ('neg', k)), else None"""
+                    neg = False
+                    while isinstance(x, Term) and x.op in ("neg", "negative") and x.args:
+                        neg, x = not neg, x.args[0]
+                    if isinstance(x, Term) and x.op in ("item", "unpack") and len(x.args) == 2 and vkey(x.args[0]) == refk and \
+                            isinstance(x.args[1], Num) and x.args[1].p.is_const():
+                        k_ = int(x.args[1].p.as_const())
+                        return ("neg", k_) if neg else k_
+                    return None
+
+                def classify(x, depth=0):
+                    """'same' | 'wrong: ...' | 'unknown' for one value handed to the constructor as *args"""
+                    if vkey(x) == refk:
+                        return "same"
+                    if depth < 6 and isinstance(x, Term) and x.op == "phi":
+                        res = []
+                        for alt in x.args:
+                            val = alt.items[1] if isinstance(alt, TupleV) and len(alt.items) == 2 else alt
+                            res.append(classify(val, depth + 1))
+                        wrong = [r_ for r_ in res if r_.startswith("wrong")]
+                        return wrong[0] if wrong else ("same" if all(r_ == "same" for r_ in res) else "unknown")
+                    if isinstance(x, TupleV):
+                        ks = [proj(i_) for i_ in x.items]
+                        if all(k_ is not None for k_ in ks):
+                            if ks == list(range(len(ks))):
+                                return "same"
+                            return "wrong: arguments are elements " + str(ks) + " of the bracket contents"
+                    return "unknown"
+                cls_ = classify(pos[0].args[0]) if len(pos) == 1 and isinstance(pos[0], Term) and pos[0].op == "starred" else \
+                    classify(TupleV(list(pos))) if pos else "unknown"
+                if cls_ == "same":
+                    ctx.ok("FLOW", f"{tag}.args", f"{name} branch: np.{ctor_op} receives exactly the bracket contents, in the written order", where,
+                           f"np.{ctor_op}(*bracket_input, dtype=float)")
+                elif cls_.startswith("wrong"):
+                    ctx.violate("FLOW", f"{tag}.args", f"{name} branch: the numbers written inside the brackets are re-ordered / sign-flipped before "
+                                f"they reach np.{ctor_op}: the grid is no longer the one the input text describes (a descending half-open "
+                                "range rewritten as an ascending one keeps the wrong end point)", where, f"np.{ctor_op}(*bracket_input, dtype=float)",
+                                witness=cls_[7:])
+                else:
+                    ctx.inconclusive("FLOW", f"{tag}.args", f"{name} branch: how the bracket contents reach np.{ctor_op} is not recognised", where,
+                                     witness=contains_top(ref) or vstr(pos[0] if pos else ct)[:240])
+            elif reader is not None and ct is not None:
+                pass
         # dispatch reaches the right constructor
         exp_op = {"literal": "literal_eval", "linspace": "linspace", "range": "arange"}[name]
         ctx.check(exp_op in inner_ops, "DISPATCH", f"{tag}.ctor", f"{name} branch builds the grid with {exp_op}", where,
